@@ -102,12 +102,19 @@ Proof.
     first [apply avoids_noq; assumption | apply no_schema_keys_ok; assumption | apply no_union_plain; assumption].
 Qed.
 
-(* the hypotheses are satisfiable: Int(1..) extends Union([Str(), Int(..5)]) *)
+(* the hypotheses are satisfiable: Int() extends Union([Str(), Int(..5)]) (get_candidate selects a
+   candidate the child is compatible with, so the child is the wider one) *)
 Example ex_extend_union_base :
   let b := SUnion [SStr m0; SInt None (Some 5) m0] m0 in
-  goodf (SInt (Some 1) None m0) /\ union_safe b = true /\ Forall basef [SStr m0; SInt None (Some 5) m0] /\ wf b /\
-  extend noq (SInt (Some 1) None m0) b = Ok (SInt (Some 1) (Some 5) m0).
+  goodf (SInt None None m0) /\ union_safe b = true /\ Forall basef [SStr m0; SInt None (Some 5) m0] /\ wf b /\
+  extend noq (SInt None None m0) b = Ok (SInt None (Some 5) m0).
 Proof.
-  repeat split; try reflexivity; try (repeat constructor; reflexivity);
-    unfold frozen_value_ok; simpl; intros; try discriminate; auto.
+  assert (F : forall s, frozen (mods_of s) = false -> frozen_value_ok s)
+    by (unfold frozen_value_ok; intros s E X; congruence).
+  split; [|split; [|split; [|split]]].
+  - unfold goodf. simpl. repeat split; auto.
+  - reflexivity.
+  - repeat constructor.
+  - simpl. repeat split; auto.
+  - vm_compute. reflexivity.
 Qed.
